@@ -99,7 +99,7 @@ def WFLit (urlOk : List Nat → Bool) (lex dt : List Nat) (lang : Option (List N
   Scalars lex ∧ WFIri urlOk dt ∧
   (match lang with
     | some t => dt = rdfLangString ∧ langOK t = true
-    | none => dt ≠ rdfLangString)
+    | none => dt ≠ rdfLangString ∧ dt ≠ rdfDirLangString)
 
 def WFNode {β : Type} (urlOk : List Nat → Bool) : Term β → Prop
   | .iri v => WFIri urlOk v
